@@ -5,6 +5,7 @@
 //         exit      the owner ends (thread shutdown notification) with live blocks while another thread frees / allocates
 //         last      foreign free of the last object of a slab vs owner malloc of that size class
 //         large     large-object cache: foreign free + malloc of the same size
+//         clean     the owner runs the cache clean-up commands (TBBMALLOC_CLEAN_THREAD_BUFFERS, TBBMALLOC_CLEAN_ALL_BUFFERS) while another thread frees its blocks
 // -p size=48
 #include <oneapi/tbb/scalable_allocator.h>
 #include "vfh.h"
@@ -26,9 +27,11 @@ static void scenario() {
         [&](int i) {
             if (i == 0) { // owner
                 if (streq(k, "exit")) { al(0); doThreadShutdownNotification(nullptr, false); }
+                else if (streq(k, "clean")) { scalable_allocation_command(TBBMALLOC_CLEAN_THREAD_BUFFERS, nullptr); al(0); scalable_allocation_command(TBBMALLOC_CLEAN_ALL_BUFFERS, nullptr); al(0); }
                 else { al(0); al(0); if (align) { al(0); al(0); } }
             } else {      // foreign thread frees the owner's blocks and allocates
-                fr(owned[0]); al(1); if (nown > 1) fr(owned[1]); al(1); if (align) for (int j = 2; j < nown; j++) fr(owned[j]);
+                if (streq(k, "clean")) { for (int j = 0; j < nown; j++) fr(owned[j]); al(1); }
+                else { fr(owned[0]); al(1); if (nown > 1) fr(owned[1]); al(1); if (align) for (int j = 2; j < nown; j++) fr(owned[j]); }
             } });
     open_window_and_join(ids);
     /* liveness stays on: the sequential phase that follows must terminate too */
